@@ -139,8 +139,37 @@ def run(F, res, tier):
                 ok_rng = True
     res.ob("N3", "find_def/range-is-token-range", "the range prepare_rename reports is the text_range of the token under the cursor",
            ok_rng, where=find_def.loc(), how="tuple.0 = tok.text_range()" if ok_rng else "not found")
+    label_classifiers_agree(F, res)
+    from rules import c05 as _c05
+    _c05.qualified_value_kinds(F, res, rule="N5")
 
 
 def thorough(F, res):
     from lib import pcache as _pc
     _pc.crosscheck(F, res)
+
+
+def label_classifiers_agree(F, res, rule="N4"):
+    """N4: a label is mapped to a field definition at three places — the use site (classify_label), the declaration
+    (ToDef for ast::VariantField) and `value.label` in the inferencer. A field shared by all variants is ONE definition
+    (Adt::common_fields); the three must make that decision with the same function, before any per-variant lookup,
+    else renaming from one side misses the occurrences classified by the other."""
+    CF = "ide::def::hir::Adt::common_fields"
+    sites = {
+        "classify_label": "ide::def::semantics::classify_label",
+        "VariantField::to_def": "<syntax::ast::VariantField as ide::def::semantics::ToDef>::to_def",
+    }
+    for name, path in sorted(sites.items()):
+        fn = F.fns.get(path)
+        if fn is None:
+            res.anchor_missing(rule, path)
+            continue
+        cf = [b for b, t in fn.calls() if callee(t) == CF]
+        per_variant = [b for b, t in fn.calls() if (callee(t) or "").endswith("hir::Variant::fields")]
+        ok = bool(cf) and all(any(fn.dominates(c, p) for c in cf) for p in per_variant)
+        res.ob(rule, "common-field-first/%s" % name, "%s asks Adt::common_fields before it looks at the fields of one variant" % name,
+               ok, where=fn.loc(), how="common_fields calls: %d, per-variant lookups: %d, all dominated: %s" % (len(cf), len(per_variant), ok))
+    inf = F.fn("ide::ty::infer::InferCtx::infer_expr_inner")
+    cf = [b for b, t in inf.calls() if callee(t) == CF]
+    res.ob(rule, "common-field-first/field-access", "`value.label` is resolved through Adt::common_fields", bool(cf), where=inf.loc(),
+           how="common_fields calls in infer_expr_inner: %d" % len(cf))
